@@ -21,6 +21,7 @@ CONSTANTS
   GenDefaults = {"a"}
   GenLiteOmit = {2}
   GenFixedSub = {"all"}
+  GenFullKinds = {"ReadOk", "ReadRaise", "ReadInvalid", "Write", "Assign", "AnnounceErr", "Untouched"}
   GenExtra = {"At", "Nest", "Deact", "Untouched"}
 CONSTRAINT Bound
 INVARIANT EmitMax
